@@ -527,30 +527,48 @@ class ClusterProp(props.BaseProp):
 
 C11 = props.register(ClusterProp())
 C11.manifest = {
-    "text": "Unbounded Coq theorems (axiom-free). About the definitions (any node list, any adjacency): triangles "
-            "through v <= pairs of neighbours, hence 0 <= clustering <= 1; self-loops never count (every definition - "
-            "neighbours, triangles, clustering, transitivity, generalised degree, Lind's square coefficient, Fagiolo's "
-            "directed coefficient - is invariant under changing the diagonal); the per-node triangle counts add up to 3 x "
-            "the number of triangles (double counting over lists). About the faithful model of cluster/*.rs (all graph "
-            "states): multi-edge graphs are refused by triangles / generalized_degree / transitivity / clustering / "
-            "average_clustering and directed graphs by the undirected-only functions (WrongMethod); SUBSET CONSISTENCY for "
-            "triangles, generalized_degree, clustering (both kinds) and square_clustering: restricting node_names to any "
-            "non-empty list returns the full computation's value for exactly those nodes; MODEL = DEFINITION for undirected "
-            "triangles, clustering and transitivity: for every state passing an executable coherence test (node list "
-            "duplicate-free, neighbour query total, closed, symmetric) triangles(v) is the number of triangles through v, "
-            "clustering(v) = 2 tri/(d(d-1)) and transitivity = 3 x triangles / connected triples as rationals (sort / "
-            "run-length / HashMap-collect lemmas + double counting). Tied to the "
+    "text": "Unbounded Coq theorems (axiom-free, generic name type). About the definitions (any node list, any adjacency): "
+            "triangles through v <= pairs of neighbours, hence 0 <= clustering <= 1; Fagiolo's directed coefficient lies in "
+            "[0,1] (counting inequality 2T + 2 d_tot + 4 d_bi <= 2 d_tot^2, any node list and arc relation); Lind's square "
+            "coefficient lies in [0,1] (numerator <= denominator as integers; duplicate-free node list, symmetric "
+            "adjacency); self-loops never count (every definition - neighbours, triangles, clustering, transitivity, "
+            "generalised degree, square coefficient, directed coefficient - is invariant under changing the diagonal); the "
+            "per-node triangle counts add up to 3 x the number of triangles (double counting over lists). About the "
+            "faithful model of cluster/*.rs: multi-edge graphs are refused by triangles / generalized_degree / transitivity "
+            "/ clustering / average_clustering and directed graphs by the undirected-only functions (WrongMethod); SUBSET "
+            "CONSISTENCY for triangles, generalized_degree, clustering (both kinds) and square_clustering. END TO END, "
+            "MODEL = DEFINITION OVER THE EDGE LIST, for EVERY coherent graph state (the invariant WF of all twelve fields, "
+            "proved for every state reachable by any history of mutations and hence for every graph built by "
+            "new_from_nodes_and_edges) with NO per-case test in the hypotheses: the neighbour set each function starts "
+            "from is total, duplicate-free and exactly the nodes joined by an edge of get_all_edges in either direction "
+            "(C11_neighbor_set; the former per-case test nbr_ok_b and 'nadj = edge-list adjacency' are now the theorems "
+            "C11_nbr_ok_holds, C11_nadj_is_edge_list); triangles(v) = number of triangles through v, clustering(v) = "
+            "2 tri/(d(d-1)), transitivity = 3 x triangles / connected triples (C11_triangles_wf/_reachable, "
+            "C11_clustering_wf/_reachable, C11_transitivity_wf/_reachable); generalized_degree(v) is a duplicate-free "
+            "histogram with an entry (k,c) exactly when c = #edges at v in exactly k triangles <> 0 "
+            "(C11_generalized_degree_wf; sort / run-length lemma); clustering on a DIRECTED graph = Fagiolo's coefficient "
+            "over the arcs of the edge list (C11_clustering_directed_wf); square_clustering on an undirected graph = Lind's "
+            "coefficient and it returns whenever the requested names are nodes (C11_square_wf, C11_square_total_wf; sums "
+            "over unordered pairs are permutation invariant); hence every value returned by clustering (both kinds) and by "
+            "square_clustering (undirected) lies in [0,1] (C11_clustering_range_wf, C11_square_range_wf); TOTALITY "
+            "(C11_total_wf): on every coherent single-edge state, node_names = None or any list of nodes, clustering (both "
+            "kinds), average_clustering and - undirected - triangles, generalized_degree, transitivity RETURN: no unwrap "
+            "fails and no float division by zero happens (the denominators are positive whenever the numerator is); "
+            "average_clustering = the mean of the counted clustering values, None when nothing is counted "
+            "(C11_average_is_mean, every graph state). Tied to the "
             "code on every run: triangles, clustering (unweighted both kinds, and the weighted forms on perfect-cube "
             "weights where the cube roots are rational and the model exact), average_clustering (count_zeros both ways), "
             "transitivity, generalized_degree, square_clustering for node_names = None, every non-empty subset (sampled "
-            "above 32), absent names, duplicates, the empty slice; in Coq every model value is also compared with the "
-            "brute-force definition computed from the edge list (flag observation); a Python oracle recomputes every "
-            "definition by brute force on the implementation's output and checks [0,1], subset consistency and refusals.",
-    "note": "Validated per case, not proved unbounded: model = definition for generalized_degree, "
-            "square_clustering (Lind) and directed clustering (Fagiolo), the [0,1] range of the directed and square "
-            "coefficients, and that the adjacency the functions read equals the edge list. Weighted forms: modelled (not "
+            "above 32), absent names, duplicates, the empty slice; in Coq every model value is STILL also compared with the "
+            "brute-force definition computed from the edge list (flag observation; it no longer carries a theorem, it ties "
+            "the model's state to the code's); a Python oracle recomputes every definition by brute force on the "
+            "implementation's output and checks [0,1], subset consistency and refusals.",
+    "note": "Now proved (formerly validated per case): nbr_ok_b, adjacency = edge list, model = definition for "
+            "generalized_degree / square_clustering (Lind) / directed clustering (Fagiolo), the [0,1] range of the directed "
+            "and square coefficients. Still validated per case only: the weighted forms: modelled (not "
             "proved) and compared only on weights that are perfect cubes (IEEE cbrt is not modelled; 1e-9 tolerance); "
-            "their definitions are checked by the Python oracle in floats. square_clustering on DIRECTED graphs is only "
+            "their definitions are checked by the Python oracle in floats. "
+            "square_clustering on DIRECTED graphs is only "
             "required not to panic (its value depends on HashSet iteration order - `u_nbrs.contains(w)` is asymmetric - "
             "and the property does not fix it; only its key set is compared). Trusted: Coq kernel + vm_compute; "
             "harness/printers/diff. Axioms: none. Repaired defects: F5 010e156, F19 5b670fd, F6 f1adbb1, F7 b6551f6, F15 "
